@@ -202,3 +202,4 @@ Example C06_nonvacuous :
      = run_gen PARSE_NESTED_MODE_GEN ex_ws ex_inst [] (Some true) ex_ctor true ex_clif ex_cli
   /\ compatible (PMap [("a", PVal (VInt 1)); ("n", PMap [("c", PNull)])]) (PMap [("n", PMap [("c", PVal (VInt 2)); ("d", PVal (VInt 3))])]) = true.
 Proof. vm_compute. repeat split; reflexivity. Qed.
+Print Assumptions C06_nonvacuous.
